@@ -363,6 +363,8 @@ static void run_case(CaseCtx& c)
     Rng& rng       = c.rng;
     const int reps = std::max(1, atoi(c.arg("reps", "1").c_str()));
     const double AMP_CAP = atof(c.arg("amp_cap", "1e4").c_str());
+    const int dump_rep   = atoi(c.arg("dump_rep", "-1").c_str());
+    int dump_seq         = 0;
 
     // ---- class of this case
     int gen = G_SDD;
@@ -480,7 +482,8 @@ static void run_case(CaseCtx& c)
         const ld normA = tri_norm_inf(A);
         // gradual underflow: below DBL_MIN the relative error model of IEEE arithmetic does not hold (x decaying to
         // denormals far from a spike of b); a few denormal ulps in an intermediate, divided by the smallest pivot and
-        // multiplied by the row, are granted: floor_i = 64 DBL_MIN (1 + sum_j |a_ij|) / piv_rel   (DBL_MIN*eps = denorm_min)
+        // multiplied by the row, are granted: floor_i = 64 DBL_MIN (1 + sum_j |a_ij|) / piv_rel   (DBL_MIN*eps = denorm_min);
+        // cyclic: times (1 + |f|), because the denormal tail of q = B^-1 u enters x multiplied by the Sherman-Morrison factor f
         std::vector<ld> uflow(A.n);
         {
             std::vector<ld> one(A.n, 1.0L), t, a;
@@ -577,9 +580,20 @@ static void run_case(CaseCtx& c)
             }
             SMScale sm = sm_scale(A, bl);
             ld v = 0, nS = 0;
+            int iw = 0;
             for (int i = 0; i < A.n; i++) {
-                nS = std::max(nS, sm.S[i]);
-                v  = std::max(v, fabsl(r[i]) / (sm.S[i] + uflow[i]));
+                nS    = std::max(nS, sm.S[i]);
+                ld vi = fabsl(r[i]) / (sm.S[i] + uflow[i] * (1.0L + fabsl(sm.f)));
+                if (vi > v)
+                    v = vi, iw = i;
+            }
+            if (dump_rep == rep) { // diagnostic for replays: --arg dump_rep=<rep of worst_system>
+                JObj dj;
+                dj.i("rhs_index", j).i("row", iw).num("residual", (double)r[iw]).num("scale_S", (double)sm.S[iw]).num("underflow_floor", (double)uflow[iw]);
+                dj.num("x_row", x[iw]).num("x_ref_row", (double)xr[iw]).num("b_row", b[iw]).num("tau", (double)sm.tau).num("f", (double)sm.f);
+                dj.num("absAx_row", (double)aAx[iw]).num("d_row", A.d[iw]).num("x_prev", x[(iw + A.n - 1) % A.n]).num("x_next", x[(iw + 1) % A.n]);
+                dj.num("xref_prev", (double)xr[(iw + A.n - 1) % A.n]).num("xref_next", (double)xr[(iw + 1) % A.n]);
+                c.obs.info.obj("dump_solve" + std::to_string(dump_seq++), dj);
             }
             ld den_ref = normA * (ld)nxr + nb;
             double amp = den_ref > 0 ? (double)(nS / den_ref) : 1.0;
